@@ -1,5 +1,6 @@
 //! pv-harness: runs pilota's real implementation on case lines (same text protocol as the
 //! extracted Coq model runner): one case per stdin line, one result per stdout line.
+mod asyncrd;
 mod interp;
 mod val;
 
@@ -29,6 +30,43 @@ fn linked_concat(lb: &mut LinkedBytes) -> Vec<u8> {
     out
 }
 
+/// counting global allocator: live bytes and peak live bytes (for the "memory in proportion to the
+/// input" oracles); requests above 4 GiB are refused (they would otherwise be satisfied lazily by
+/// the OS and go unnoticed) -- Rust then aborts, which the driver reports as a crash
+pub struct Counting;
+pub static LIVE: std::sync::atomic::AtomicUsize = std::sync::atomic::AtomicUsize::new(0);
+pub static PEAK: std::sync::atomic::AtomicUsize = std::sync::atomic::AtomicUsize::new(0);
+unsafe impl std::alloc::GlobalAlloc for Counting {
+    unsafe fn alloc(&self, l: std::alloc::Layout) -> *mut u8 {
+        use std::sync::atomic::Ordering::Relaxed;
+        if l.size() > (4usize << 30) {
+            return std::ptr::null_mut();
+        }
+        let p = std::alloc::System.alloc(l);
+        if !p.is_null() {
+            let live = LIVE.fetch_add(l.size(), Relaxed) + l.size();
+            PEAK.fetch_max(live, Relaxed);
+        }
+        p
+    }
+    unsafe fn dealloc(&self, p: *mut u8, l: std::alloc::Layout) {
+        LIVE.fetch_sub(l.size(), std::sync::atomic::Ordering::Relaxed);
+        std::alloc::System.dealloc(p, l)
+    }
+}
+#[global_allocator]
+static GLOBAL: Counting = Counting;
+
+/// runs f and returns (result, peak live bytes above the level at entry)
+pub fn with_peak<T>(f: impl FnOnce() -> T) -> (T, usize) {
+    use std::sync::atomic::Ordering::Relaxed;
+    let before = LIVE.load(Relaxed);
+    PEAK.store(before, Relaxed);
+    let r = f();
+    let peak = PEAK.load(Relaxed);
+    (r, peak.saturating_sub(before))
+}
+
 fn main() {
     let args: Vec<String> = std::env::args().collect();
     let _ = args;
@@ -49,6 +87,8 @@ fn main() {
             Ok(Err(e)) => writeln!(out, "BADCASE {e}").unwrap(),
             Err(_) => writeln!(out, "panic").unwrap(),
         }
+        // a later case may abort the process: what has been computed must already be out
+        out.flush().unwrap();
     }
     out.flush().unwrap();
 }
@@ -58,6 +98,7 @@ fn run_line(line: &str) -> Result<String, String> {
     match t.next()? {
         "rt" => suite_rt(&mut t),
         "rd" => suite_rd(&mut t),
+        "ard" => suite_ard(&mut t),
         s => Err(format!("unknown suite {s}")),
     }
 }
@@ -208,7 +249,8 @@ fn suite_rd(t: &mut Toks) -> Result<String, String> {
     let pk = parse_pk(t.next()?)?;
     let ty = t.next_usize()? as u8;
     let input = unhex(t.next()?)?;
-    Ok(match read_vals(pk, &input, &[ty], BinApi::Bytes) {
+    let (r, peak) = with_peak(|| read_vals(pk, &input, &[ty], BinApi::Bytes));
+    let mut out = match r {
         Err(e) => show_err(&e),
         Ok((vs, rem)) => {
             let mut out = String::from("ok ");
@@ -216,5 +258,108 @@ fn suite_rd(t: &mut Toks) -> Result<String, String> {
             out.push_str(&format!(" REM {rem}"));
             out
         }
-    })
+    };
+    // the other read flavours must agree in outcome class
+    for api in [BinApi::BytesVec, BinApi::Str, BinApi::FastStr] {
+        let a = read_vals(pk, &input, &[ty], BinApi::Bytes);
+        let b = read_vals(pk, &input, &[ty], api);
+        let same = match (&a, &b) {
+            (Ok(x), Ok(y)) => x == y,
+            (Err(x), Err(y)) => err_class(x) == err_class(y),
+            _ => false,
+        };
+        if !same {
+            out.push_str(&format!(" ORACLE-FAIL read-api-{api:?}"));
+        }
+    }
+    out.push_str(&format!(" MEM {peak}"));
+    Ok(out)
+}
+
+fn parse_cuts(spec: &str, n: usize) -> Result<(Vec<usize>, usize), String> {
+    // <cuts>[/p<k>]: cuts = "all" | "b1" (every byte) | "h" (halves) | comma separated positions;
+    // p<k> = return Pending k times before every hand-out
+    let (c, p) = match spec.split_once('/') {
+        Some((c, p)) => (c, p.trim_start_matches('p').parse::<usize>().map_err(|e| e.to_string())?),
+        None => (spec, 0),
+    };
+    let cuts = match c {
+        "all" => vec![],
+        "b1" => (1..n).collect(),
+        "h" => vec![n / 2],
+        _ => c.split(',').map(|x| x.parse::<usize>().map_err(|e| e.to_string())).collect::<Result<Vec<_>, _>>()?,
+    };
+    Ok((cuts, p))
+}
+
+pub fn aread_vals(
+    pk: Pk,
+    input: &[u8],
+    tys: &[u8],
+    cuts: Vec<usize>,
+    pend: usize,
+    api: asyncrd::ABinApi,
+) -> Option<(Result<Vec<TVal>, ThriftException>, usize)> {
+    use pilota::thrift::{binary::TAsyncBinaryProtocol, binary_le::TAsyncBinaryProtocol as TAsyncBinaryLeProtocol, compact::TAsyncCompactProtocol};
+    let mut rd = asyncrd::Scripted::new(input.to_vec(), cuts, pend);
+    let budget = (input.len() + 16) * (pend + 2) * 8 + 100_000;
+    macro_rules! go {
+        ($p:expr) => {{
+            let mut p = $p;
+            asyncrd::block_on(
+                async {
+                    let mut out = Vec::new();
+                    for ty in tys {
+                        match asyncrd::aread_val(&mut p, *ty, api).await {
+                            Ok(v) => out.push(v),
+                            Err(e) => return Err(e),
+                        }
+                    }
+                    Ok(out)
+                },
+                budget,
+            )
+        }};
+    }
+    let r = match pk {
+        Pk::Binary => go!(TAsyncBinaryProtocol::new(&mut rd)),
+        Pk::BinaryLe => go!(TAsyncBinaryLeProtocol::new(&mut rd)),
+        Pk::Compact => go!(TAsyncCompactProtocol::new(&mut rd)),
+    };
+    r.map(|x| (x, rd.handed_out))
+}
+
+/// ard <pk> <ttype code> <hex> <schedule>   -> ok <value> REM <k> | err <class> | HANG
+fn suite_ard(t: &mut Toks) -> Result<String, String> {
+    let pk = parse_pk(t.next()?)?;
+    let ty = t.next_usize()? as u8;
+    let input = unhex(t.next()?)?;
+    let (cuts, pend) = parse_cuts(t.next()?, input.len())?;
+    let (r, peak) = with_peak(|| aread_vals(pk, &input, &[ty], cuts.clone(), pend, asyncrd::ABinApi::Bytes));
+    let mut out = match r {
+        None => "HANG".to_string(),
+        Some((Err(e), _)) => show_err(&e),
+        Some((Ok(vs), pulled)) => {
+            let mut out = String::from("ok ");
+            show_val(&mut out, &vs[0]);
+            out.push_str(&format!(" REM {}", input.len() - pulled));
+            out
+        }
+    };
+    // implementation-only oracles: the other binary flavours agree with read_bytes
+    for api in [asyncrd::ABinApi::BytesVec, asyncrd::ABinApi::Str, asyncrd::ABinApi::FastStr] {
+        let a = aread_vals(pk, &input, &[ty], cuts.clone(), pend, asyncrd::ABinApi::Bytes);
+        let b = aread_vals(pk, &input, &[ty], cuts.clone(), pend, api);
+        let same = match (&a, &b) {
+            (Some((Ok(x), n)), Some((Ok(y), m))) => x == y && n == m,
+            (Some((Err(x), _)), Some((Err(y), _))) => err_class(x) == err_class(y),
+            (None, None) => true,
+            _ => false,
+        };
+        if !same {
+            out.push_str(&format!(" ORACLE-FAIL async-read-api-{api:?}"));
+        }
+    }
+    out.push_str(&format!(" MEM {peak}"));
+    Ok(out)
 }
